@@ -226,29 +226,77 @@ func c06Merge(c *Ctx, sx *symx.Ctx) {
 // reachAvoidBB: to is reachable from from avoiding the cut edges and the
 // barrier blocks.
 func reachAvoidBB(from, to *ssa.BasicBlock, cut map[[2]int]bool, barrier map[*ssa.BasicBlock]bool) bool {
-	seen := map[*ssa.BasicBlock]bool{}
-	st := []*ssa.BasicBlock{from}
+	// states are (block, predecessor it was entered from): a block that
+	// branches on a boolean merged there (x := a || b; if x) is left only on
+	// the side its value has when entered from that predecessor
+	type state struct {
+		b    *ssa.BasicBlock
+		pred *ssa.BasicBlock
+	}
+	seen := map[state]bool{}
+	st := []state{{from, nil}}
 	for len(st) > 0 {
-		b := st[len(st)-1]
+		s := st[len(st)-1]
 		st = st[:len(st)-1]
-		if seen[b] {
+		if seen[s] {
 			continue
 		}
-		seen[b] = true
+		seen[s] = true
+		b := s.b
 		if barrier[b] {
 			continue
 		}
+		only := threadedSucc(b, s.pred)
 		for k, sc := range b.Succs {
-			if cut[[2]int{b.Index, k}] {
+			if cut[[2]int{b.Index, k}] || (only >= 0 && k != only) {
 				continue
 			}
 			if sc == to {
 				return true
 			}
-			st = append(st, sc)
+			st = append(st, state{sc, b})
 		}
 	}
 	return false
+}
+
+// threadedSucc: block b ends in a branch on a boolean phi of b itself and the
+// value flowing in from pred is a constant: the index of the only successor
+// that can be taken (-1: unknown, both).
+func threadedSucc(b, pred *ssa.BasicBlock) int {
+	if pred == nil || len(b.Instrs) == 0 {
+		return -1
+	}
+	iff, ok := b.Instrs[len(b.Instrs)-1].(*ssa.If)
+	if !ok {
+		return -1
+	}
+	cond, neg := iff.Cond, false
+	if u, isU := cond.(*ssa.UnOp); isU && u.Op == token.NOT {
+		cond, neg = u.X, true
+	}
+	phi, ok := cond.(*ssa.Phi)
+	if !ok || phi.Block() != b {
+		return -1
+	}
+	for i, p := range b.Preds {
+		if p != pred || i >= len(phi.Edges) {
+			continue
+		}
+		k, isC := phi.Edges[i].(*ssa.Const)
+		if !isC || k.Value == nil {
+			return -1
+		}
+		val := k.Value.String() == "true"
+		if neg {
+			val = !val
+		}
+		if val {
+			return 0
+		}
+		return 1
+	}
+	return -1
 }
 
 func c06Protected(c *Ctx, sx *symx.Ctx) {
